@@ -145,7 +145,152 @@ def cases(ctx, scale):
     for k in range(ctx.scale(200, 2000) * scale):
         n = rng.randint(6, 30)
         out.append(mk_case(rng, n, random_graph(rng, n, k % 2 == 1)))
+    # 6. PythonJob pipelines: every argument shape (container nesting depth 0..3, positional / keyword) x every kind of resource,
+    #    consumer created before its producer; then random mixed Bash/Python pipelines
+    out += py_shape_cases()
+    for _ in range(ctx.scale(400, 4000) * scale):
+        out.append(gen_py_case(rng))
     return out
+
+
+# ------------------------------------------------------------------------------------------------
+# PythonJob pipelines: a resource reaches a PythonJob through the arguments of j.call(f, *args, **kwargs)
+
+PY_LEAVES = [['file', 'ofile'], ['group'], ['groupfile', 'bed'], ['res', 'raw'], ['res', 'str'], ['res', 'repr'], ['res', 'json']]
+
+
+def py_arg_refs(a):
+    """All resource references reachable in a call argument (any nesting of lists / tuples / dict values)."""
+    if a[0] == 'r':
+        yield a[1]
+    elif a[0] in ('l', 't'):
+        for x in a[1]:
+            yield from py_arg_refs(x)
+    elif a[0] == 'd':
+        for _, x in a[1]:
+            yield from py_arg_refs(x)
+
+
+def py_edges(case):
+    """(explicit, resource-induced) dependency edges a PythonJob pipeline spec asks for, from the spec alone."""
+    spec = case['py']
+    call_job = [op[1] for op in spec['ops'] if op[0] == 'call']
+
+    def src(ref):
+        return call_job[ref[1]] if ref[0] == 'res' else ref[1]
+    explicit, resource = set(), set()
+    for op in spec['ops']:
+        if op[0] == 'dep':
+            explicit.add((op[1], op[2]))
+        elif op[0] == 'cat':
+            if src(op[2]) != op[1]:
+                resource.add((op[1], src(op[2])))
+        elif op[0] == 'call':
+            for a in list(op[2]) + [x for _, x in op[3]]:
+                for ref in py_arg_refs(a):
+                    if src(ref) != op[1]:
+                        resource.add((op[1], src(ref)))
+    return sorted(map(list, explicit)), sorted(map(list, resource))
+
+
+def py_wrap(a, path, fill):
+    """Nest argument a in containers, innermost first: path is a string over l(ist) t(uple) d(ict)."""
+    for depth, k in enumerate(path):
+        if k == 'd':
+            a = ['d', ([['p', fill]] if depth % 2 else []) + [['key', a]]]
+        else:
+            a = [k, ([fill] if depth % 2 == 0 else []) + [a]]
+    return a
+
+
+def py_finish(n, kinds, ops, always, fails):
+    case = {'n': n, 'explicit': [], 'resource': [], 'always': always, 'fails': fails, 'py': {'kinds': kinds, 'ops': ops}}
+    case['explicit'], case['resource'] = py_edges(case)
+    return case
+
+
+def py_shape_cases():
+    """Consumer (a PythonJob, created FIRST) gets one resource of the producer through one argument of one call; the argument is
+    the resource itself or nests it in every combination of list / tuple / dict up to depth 3, passed positionally and by keyword."""
+    out = []
+    paths = [''.join(p) for d in range(4) for p in itertools.product('ltd', repeat=d)]
+    for leaf in PY_LEAVES:
+        for path in paths:
+            for place in ('pos', 'kw'):
+                if leaf[0] == 'res':
+                    kinds = ['py', 'py']
+                    pre = [['call', 1, [['v', 3]], [], 'f']]
+                    ref = ['res', 0, leaf[1]]
+                elif leaf[0] == 'file':
+                    kinds, pre, ref = ['py', 'bash'], [['produce', 1, leaf[1]]], ['file', 1, leaf[1]]
+                else:
+                    kinds, pre = ['py', 'bash'], [['declare', 1]]
+                    ref = ['group', 1] if leaf[0] == 'group' else ['groupfile', 1, leaf[1]]
+                a = py_wrap(['r', ref], path, ['v', 7])
+                call = ['call', 0, [['v', 1], a], [], 'g'] if place == 'pos' else ['call', 0, [], [['flag', ['v', True]], ['data', a]], 'f']
+                # the producer fails: the consumer must be skipped
+                out.append(py_finish(2, kinds, pre + [call], [False, False], [False, True]))
+    return out
+
+
+def gen_py_case(rng):
+    n = rng.randint(2, 6)
+    kinds = [rng.choice(['py', 'py', 'bash']) for _ in range(n)]
+    if 'py' not in kinds:
+        kinds[rng.randrange(n)] = 'py'
+    topo = list(range(n))
+    rng.shuffle(topo)          # data-flow order; the job index is the CREATION order
+    avail = []                 # references defined so far
+    ops = []
+    ncalls = 0
+
+    def pick(for_bash):
+        ref = list(rng.choice(avail))
+        if ref[0] == 'res':
+            ref.append(rng.choice(['str', 'repr', 'json'] if for_bash else ['raw', 'raw', 'str', 'repr', 'json']))
+        return ref
+
+    def filler():
+        return ['v', rng.choice([0, 'x', None, 1.5, True])]
+
+    for pos, j in enumerate(topo):
+        if pos and rng.random() < 0.12:
+            ops.append(['dep', j, rng.choice(topo[:pos])])
+        if kinds[j] == 'bash':
+            for _ in range(rng.randint(0, 2)):
+                if avail:
+                    ops.append(['cat', j, pick(True)])
+            if rng.random() < 0.3:
+                ops.append(['declare', j])
+                avail += [['group', j], ['groupfile', j, 'bed'], ['groupfile', j, 'bim']]
+            for ident in rng.sample(['ofile', 'out2'], rng.randint(0, 2)):
+                ops.append(['produce', j, ident])
+                avail.append(['file', j, ident])
+        else:
+            for _ in range(rng.randint(1, 2)):
+                args, kwargs = [], []
+                for _ in range(rng.randint(0, 2)):
+                    args.append(filler())
+                for _ in range(rng.choice([0, 1, 1, 2, 3]) if avail else 0):
+                    path = ''.join(rng.choice('ltd') for _ in range(rng.choice([0, 1, 1, 2, 2, 3])))
+                    a = py_wrap(['r', pick(False)], path, filler())
+                    if rng.random() < 0.5:
+                        args.insert(rng.randint(0, len(args)), a)
+                    else:
+                        kwargs.append([f'kw{len(kwargs)}', a])
+                if rng.random() < 0.3:
+                    kwargs.insert(rng.randint(0, len(kwargs)), [f'opt{len(kwargs)}', filler()])
+                ops.append(['call', j, args, kwargs, 'g' if args and rng.random() < 0.5 else 'f'])
+                avail.append(['res', ncalls])
+                ncalls += 1
+    always = [rng.random() < 0.3 for _ in range(n)]
+    fails = [rng.random() < 0.35 for _ in range(n)]
+    case = py_finish(n, kinds, ops, always, fails)
+    if rng.random() < 0.08 and case['resource']:
+        j, d = rng.choice(case['resource'])
+        case['py']['ops'].append(['dep', d, j])          # closes a cycle through a call argument
+        case['explicit'], case['resource'] = py_edges(case)
+    return case
 
 
 def corpus_cases():
@@ -215,7 +360,9 @@ def correspond(ctx):
         hist[key] = hist.get(key, 0) + 1
         edges = frozenset(map(tuple, c['explicit'])) | frozenset(map(tuple, c['resource']))
         if len(edges) >= 1:
-            distinct.add((c['n'], edges, tuple(c['always']), tuple(c['fails'])))
+            distinct.add((c['n'], edges, tuple(c['always']), tuple(c['fails']), repr(c.get('py'))))
+        if c.get('py'):
+            hist['pythonjob-pipelines'] = hist.get('pythonjob-pipelines', 0) + 1
         if iv != m:
             dis.append(Disagreement('Model.batch_run~Batch.run/LocalBackend', c, m, iv))
         # the executed sequence must follow the numbering (model: map fst log = ord)
@@ -227,7 +374,8 @@ def correspond(ctx):
     return Corr(evaluations=len(cs), distinct_nontrivial=len(distinct),
                 rule='pipeline = (n, explicit edges, resource edges, always_run table, fail table); all digraphs on <=3 jobs, all DAGs on 3 jobs x all '
                      'tables, all DAGs on 4 jobs, DAGs on 5 jobs (thorough: all), random digraphs on 4 jobs, random pipelines of 6..30 jobs; '
-                     'non-trivial = at least one edge; real Batch.run on LocalBackend (scripted commands) vs Model.batch_run by vm_compute',
+                     'PythonJob pipelines: 7 resource kinds x all list/tuple/dict nestings of depth 0..3 x positional/keyword (consumer created first), '
+                     'and random mixed Bash/Python pipelines of 2..6 jobs (results used raw / as_str / as_repr / as_json); non-trivial = at least one edge; real Batch.run on LocalBackend (scripted commands) vs Model.batch_run by vm_compute',
                 samples=[{'case': c, 'impl': r} for c, r in list(zip(cs, impl))[3:5] + list(zip(cs, impl))[-1:]],
                 disagreements=dis, histograms={'outcome': hist}, names=['Model.batch_run~Batch.run/LocalBackend'],
                 exhaustive=False)
@@ -262,7 +410,18 @@ def judge(case, r):
     edges = sorted(set(map(tuple, case['explicit'])) | set(map(tuple, case['resource'])))
     fails = []
     got_deps = sorted((j, d) for j in range(n) for d in r['deps'][j])
-    if got_deps != edges:
+    if case.get('py'):
+        # PythonJob pipeline: the expected edges are recomputed from the operations (every resource REACHABLE in the arguments of a
+        # call — positional, keyword, nested in lists / tuples / dicts — and every resource in a Bash command induces an edge)
+        ex, rs = py_edges(case)
+        if sorted(map(tuple, ex + rs)) != sorted(map(tuple, case['explicit'] + case['resource'])):
+            raise ValueError(f'C17: stored edges of a PythonJob case differ from its operations: {case}')
+        if got_deps != edges:
+            missing = sorted(set(edges) - set(got_deps))
+            fails.append(Failure('pyjob-dependency-set', 'job._dependencies differs from {explicit dependencies} + {producers of the resources reachable in '
+                                 f'the arguments of PythonJob.call / mentioned in Bash commands}}; missing {missing}, extra {sorted(set(got_deps) - set(edges))}',
+                                 case, edges, got_deps))
+    elif got_deps != edges:
         fails.append(Failure('dependency-set', 'job._dependencies differs from the explicit + resource-induced dependencies of the pipeline',
                              case, edges, got_deps))
     if has_cycle(n, edges):
@@ -309,10 +468,13 @@ def oracle(ctx, budget):
         fails += fs
         k = 'cyclic' if r['result'] == 'cycle' else ('with-skips' if r['skipped'] else 'no-skips')
         hist[k] = hist.get(k, 0) + 1
-    distinct = len({(c['n'], frozenset(map(tuple, c['explicit'] + c['resource'])), tuple(c['always']), tuple(c['fails']))
+        if c.get('py'):
+            hist['pythonjob-pipelines'] = hist.get('pythonjob-pipelines', 0) + 1
+    distinct = len({(c['n'], frozenset(map(tuple, c['explicit'] + c['resource'])), tuple(c['always']), tuple(c['fails']), repr(c.get('py')))
                     for c in cs if c['explicit'] or c['resource']})
     return fails, {'evaluations': len(cs), 'distinct_nontrivial': distinct,
-                   'rule': 'oracle: ids/edges/cycle/skip-set recomputed in Python from the pipeline spec on the real run() output',
+                   'rule': 'oracle: ids/edges/cycle/skip-set recomputed in Python from the pipeline spec on the real run() output; for PythonJob '
+                           'pipelines the edges are {explicit} + {producer of every resource reachable in the arguments of a call or mentioned in a command}',
                    'histograms': {'oracle_outcome': hist}}
 
 
